@@ -126,7 +126,8 @@ class AtomTheory:
             return SYMBOL(a)
         if name == "number":
             return NUMBER(a)
-        if name == "density":
+        if name in ("density", "_density"):
+            # _density is the loaded element field; density the served (element or scaled isotope) value
             return VOpt(DENS_NONE(a), DENS(a))
         if name == "covalent_radius":
             return VOpt(COVR_NONE(a), COVR(a))
